@@ -56,7 +56,8 @@ WRAPPER = {
     "b3p":  ("Blocking", blocking(poll=2, maxtime=3, cancellable='{"p2"}', outcomes='{"ignore"}')),
     "b3l2": ("Blocking", blocking(limit=2, cancellable='{"p3"}', outcomes='{"success", "ignore"}')),
     "b2c":  ("Blocking", blocking(procs=P2, poll=1, maxtime=2, cancellable='{"p1", "p2"}', outcomes='{"dropped"}')),
-    "b4":   ("Blocking", blocking(procs=P4, limit=2, cancellable='{"p4"}')),
+    "b4":   ("Blocking", blocking(procs=P4, limit=2)),
+    "b4c":  ("Blocking", blocking(procs=P4, limit=2, cancellable='{"p4"}')),
     # deadline limiter
     "d3":   ("Blocking", blocking(kind="deadline", deadline=2, maxtime=3, cancellable='{"p3"}', outcomes='{"dropped"}')),
     "d2":   ("Blocking", blocking(kind="deadline", procs=P2, deadline=1, maxtime=2, cancellable='{"p2"}')),
@@ -67,6 +68,7 @@ WRAPPER = {
     "q3s":  ("QueueBlocking", queue(qmax=1, maxtime=2, outcomes='{"ignore"}')),
     "q3n":  ("QueueBlocking", queue(qtimeout=0, maxtime=0, evict=False, cancellable='{"p2"}', ordering="lifo", outcomes='{"dropped"}')),
     "q2":   ("QueueBlocking", queue(procs=P2, qmax=1, maxtime=2, cancellable='{"p2"}')),
+    "q4b":  ("QueueBlocking", queue(procs=P4, qmax=2, qtimeout=0, maxtime=0, evict=False)),
     "q4":   ("QueueBlocking", queue(procs=P4, qmax=3, qtimeout=0, maxtime=0, evict=False)),
     "q4l":  ("QueueBlocking", queue(procs=P4, qmax=3, qtimeout=0, maxtime=0, evict=False, ordering="lifo")),
     "q4t":  ("QueueBlocking", queue(procs=P4, limit=2, qmax=2, qtimeout=2, maxtime=2, evict=True, cancellable='{"p4"}')),
